@@ -98,6 +98,24 @@ MUTS4 = [
 ]
 
 
+# round 5: the five mutations of the third audit that went unnoticed (E1-E5) and the round-5 additions
+MUTS5 = [
+ ('E1', 'C11', 'core/src/pixelcolor/raw/mod.rs', 'fn from(value: $storage_type) -> Self {\n                Self::new(value)', 'fn from(value: $storage_type) -> Self {\n                Self::new_unmasked(value)', 'break', 'audit3 E1: impl_raw_data! `From<storage>::from`: new -> new_unmasked (sub-byte loads return unmasked values)', 0),
+ ('E2', 'C20', 'src/mock_display/mod.rs', 'panic!("tried to draw pixel twice (x: {}, y: {})", point.x, point.y);', 'return;', 'break', 'audit3 E2: MockDisplay::draw_pixel: the overdraw `panic!` replaced by `return;`', 0),
+ ('E3', 'C20', 'src/mock_display/mod.rs', '        assert!(\n            point.x >= 0 && point.y >= 0 && point.x < SIZE as i32 && point.y < SIZE as i32,\n            "point must be inside display bounding box: {:?}",\n            point\n        );\n', '', 'break', 'audit3 E3: MockDisplay::set_pixel: the `assert!` deleted', 0),
+ ('E4', 'C11', 'core/src/pixelcolor/raw/mod.rs', 'load_store::LoadStore::<O>::load(buffer, index)', 'None', 'break', 'audit3 E4: impl_raw_data! `RawData::load`: body replaced by `None`', 0),
+ ('E5', 'C11', 'core/src/pixelcolor/raw/mod.rs', 'Self::new(value as $storage_type)', 'Self::new_unmasked(value as $storage_type)', 'break', 'audit3 E5: impl_raw_data! `from_u32`: new -> new_unmasked', 0),
+ ('V1', 'C20', 'src/mock_display/mod.rs', 'if x < 0 || y < 0 || x >= SIZE as i32 || y >= SIZE as i32 {', 'if x < 0 || y < 0 || x > SIZE as i32 || y >= SIZE as i32 {', 'break', 'MockDisplay::get_pixel: `x >= SIZE` -> `x > SIZE` (x = 64 is now indexed; with y = 63 an index panic the model does not have)', 0),
+ ('V2', 'C10', 'src/framebuffer.rs', None, None, 'break', 'Framebuffer<RawU8>::set_pixel: `x < WIDTH` -> `x <= WIDTH` (the write of column WIDTH: another pixel, or an index panic in the last row)', 0),
+ ('V3', 'C16', 'core/src/geometry/size.rs', 'Self::new(self.width.min(other.width), self.height.min(other.height))', 'Self::new(self.width.min(other.width), self.height.max(other.height))', 'break', 'Size::component_min (was referenced by no theorem): min -> max in the height', 0),
+ ('V4', 'C07', 'src/primitives/sector/mod.rs', 'let radius = self.diameter.saturating_sub(1);\n\n        self.top_left * 2 + Size::new(radius, radius)', 'let radius = self.diameter.saturating_sub(2);\n\n        self.top_left * 2 + Size::new(radius, radius)', 'break', 'Sector::center_2x (was referenced by no theorem): saturating_sub(1) -> (2)', 0),
+ ('V5', 'C11', 'core/src/pixelcolor/raw/load_store.rs', '.checked_mul(2)\n            .and_then(|start| buffer.get(start..))\n            .and_then(|buffer| buffer.get(0..2))', '.checked_mul(2)\n            .and_then(|start| buffer.get(start + 1..))\n            .and_then(|buffer| buffer.get(0..2))', 'break', 'RawU16 load (now stated for every width of usize): window starts one byte late', 1),
+ ('V6', 'C03', 'src/iterator/contiguous.rs', None, None, 'break', 'Cropped::new (theorem now without intersection hypotheses): the initial skip uses crop_area.top_left.x twice', 0),
+ ('X1', 'C20', 'src/mock_display/mod.rs', 'let i = point.x + point.y * SIZE as i32;\n        self.pixels[i as usize] = color;\n    }\n\n    /// Changes the value of a pixel without bounds checking.\n    ///\n    /// # Panics\n    ///\n    /// This method will panic if `point` is outside the display bounding box.\n    fn set_pixel_unchecked', 'let idx = point.x + point.y * SIZE as i32;\n        self.pixels[idx as usize] = color;\n    }\n\n    /// Changes the value of a pixel without bounds checking.\n    ///\n    /// # Panics\n    ///\n    /// This method will panic if `point` is outside the display bounding box.\n    fn set_pixel_unchecked', 'preserve', 'MockDisplay::set_pixel (partial function: assert! + index): local `i` renamed', 0),
+ ('X2', 'C11', 'core/src/pixelcolor/raw/mod.rs', 'fn from_u32(value: u32) -> Self {\n                #[allow(trivial_numeric_casts)]\n                Self::new(value as $storage_type)', 'fn from_u32(value: u32) -> Self {\n                #[allow(trivial_numeric_casts)]\n                let v = value as $storage_type;\n                Self::new(v)', 'preserve', 'impl_raw_data! from_u32: the cast bound to a local first', 0),
+]
+
+
 def sh(cmd, env=None, timeout=3600):
     p = subprocess.run(cmd, shell=True, cwd=V, env=dict(os.environ, **(env or {})), stdout=subprocess.PIPE, stderr=subprocess.STDOUT, text=True, timeout=timeout)
     return p.returncode, p.stdout
@@ -142,13 +160,25 @@ def special(mid, txt):
         i = txt.index('pub fn next(&mut self, parameters: &BresenhamParameters) -> Point {')
         j = txt.index('if self.error > parameters.error_threshold {', i)
         return txt[:j] + 'if self.error >= parameters.error_threshold {' + txt[j + len('if self.error > parameters.error_threshold {'):]
+    if mid == 'V2':
+        i = txt.index('pub fn set_pixel(&mut self, p: Point, c: C) {', txt.index('impl<C, BO, const WIDTH: usize, const HEIGHT: usize, const N: usize>\n    Framebuffer<C, RawU8, BO, WIDTH, HEIGHT, N>'))
+        j = txt.index('if x < WIDTH && y < HEIGHT {', i)
+        return txt[:j] + 'if x <= WIDTH && y < HEIGHT {' + txt[j + len('if x < WIDTH && y < HEIGHT {'):]
+    if mid == 'V6':
+        a = 'crop_area.top_left.y as usize * size.width as usize + crop_area.top_left.x as usize'
+        if txt.count(a) != 1:
+            return None
+        return txt.replace(a, 'crop_area.top_left.x as usize * size.width as usize + crop_area.top_left.x as usize')
     return None
 
 
 def first_failing_lemma(out):
-    m = re.search(r'File "\./((?:Proofs|Properties|Gen)/[\w]+\.v)", line (\d+)', out)
-    if not m:
+    ms = list(re.finditer(r'File "\./((?:Proofs|Properties|Gen)/[\w]+\.v)", line (\d+)', out))
+    if not ms:
         return None
+    # the first failure inside the translator tie (Proofs/Src*.v, Properties/*_src*.v), else the first failure at all
+    mine = [m for m in ms if m.group(1).startswith('Proofs/Src') or '_src' in m.group(1)]
+    m = (mine or ms)[0]
     f, ln = m.group(1), int(m.group(2))
     name = None
     for i, l in enumerate(open(os.path.join(V, 'coq', f)), 1):
@@ -163,11 +193,11 @@ def first_failing_lemma(out):
 def main():
     want = sys.argv[1:]
     rows = []
-    allm = [m + (0,) for m in MUTS] + MUTS2 + MUTS3 + MUTS4
+    allm = [m + (0,) for m in MUTS] + MUTS2 + MUTS3 + MUTS4 + MUTS5
     for mid, prop, f, old, new, kind, what, occ in allm:
         if want and mid not in want:
             continue
-        if not want and mid[0] in 'NQRSTUW':
+        if not want and mid[0] in 'NQRSTUWEVX':
             continue
         sh('git -C /repo worktree remove --force %s; git -C /repo worktree prune' % S)
         rc, o = sh('git -C /repo worktree add --detach %s HEAD' % S)
